@@ -285,7 +285,7 @@ func (c *Ctx) zeroInitStruct(st *State, ref Term, t types.Type, depth int) {
 	}
 	for i := 0; i < s.NumFields(); i++ {
 		fi := c.fieldByIndex(owner, i)
-		if _, isStruct := fi.GoT.Underlying().(*types.Struct); isStruct {
+		if isRepoStruct(fi.GoT) {
 			sub := c.loadField(st, ref, fi)
 			c.zeroInitStruct(st, sub, fi.GoT, depth+1)
 			continue
@@ -416,7 +416,11 @@ func (c *Ctx) step(st *State, fr *Frame, in ssa.Instruction) {
 	case *ssa.DebugRef:
 	case *ssa.Alloc:
 		et := deref(x.Type())
-		switch u := et.Underlying().(type) {
+		var und types.Type = et.Underlying()
+		if isOpaqueStruct(et) {
+			und = types.Typ[types.Int] // opaque scalar cell
+		}
+		switch u := und.(type) {
 		case *types.Struct:
 			_ = u
 			ref := c.allocRef(st, "new_"+shortTypeName(et))
@@ -489,7 +493,7 @@ func (c *Ctx) step(st *State, fr *Frame, in ssa.Instruction) {
 		base := c.term(st, fr, x.X)
 		c.derefCheck(st, fr, base, x.Pos(), "field")
 		fi := c.fieldByIndex(x.X.Type(), x.Field)
-		if _, isStruct := fi.GoT.Underlying().(*types.Struct); isStruct {
+		if isRepoStruct(fi.GoT) {
 			st.regs[x] = c.loadField(st, base, fi)
 		} else {
 			st.regs[x] = &Addr{Kind: aField, Ref: base, HKey: fi.Key, Elem: fi.GoT}
@@ -581,7 +585,7 @@ func (c *Ctx) storeStruct(st *State, fr *Frame, dst Term, src ssa.Value, t types
 	}
 	for i := 0; i < s.NumFields(); i++ {
 		fi := c.fieldByIndex(owner, i)
-		if _, isStruct := fi.GoT.Underlying().(*types.Struct); isStruct {
+		if isRepoStruct(fi.GoT) {
 			continue
 		}
 		if sv.S == "0" {
@@ -654,14 +658,14 @@ func (c *Ctx) unop(st *State, fr *Frame, x *ssa.UnOp) {
 			}
 		case Term:
 			// load of a whole struct: the struct value is represented by a snapshot reference
-			if _, isStruct := deref(x.X.Type()).Underlying().(*types.Struct); isStruct {
+			if isRepoStruct(deref(x.X.Type())) {
 				c.derefCheck(st, fr, a, x.Pos(), "struct")
 				snap := c.allocRef(st, "snap")
 				snap.GoT = types.NewPointer(x.Type())
 				s, owner := structOf(x.Type())
 				for i := 0; i < s.NumFields(); i++ {
 					fi := c.fieldByIndex(owner, i)
-					if _, isS := fi.GoT.Underlying().(*types.Struct); isS {
+					if isRepoStruct(fi.GoT) {
 						continue
 					}
 					c.storeField(st, snap, fi, c.loadField(st, a, fi))
@@ -875,7 +879,7 @@ func intFits(from, to types.BasicKind) bool {
 func (c *Ctx) makeIface(st *State, fr *Frame, xv ssa.Value, ifaceT types.Type) Term {
 	v := c.get(st, fr, xv)
 	t := xv.Type()
-	tid := c.V.typeID(typeKey(t))
+	tid := c.V.typeIDOf(t)
 	var payload Term
 	switch vv := v.(type) {
 	case Term:
@@ -1034,6 +1038,29 @@ func (c *Ctx) slice(st *State, fr *Frame, x *ssa.Slice) {
 	r.GoT = x.Type()
 	if fresh && whole {
 		st.fresh[r.S] = true
+	}
+	if isArr && whole && fresh {
+		// composite literal of at most 8 elements, all set at literal indices: use the canonical
+		// form single(e0) ++ single(e1) ++ ... (the same term a contract writes as bytes(..)/strs(..)/refs(..))
+		if p, ok := x.X.Type().Underlying().(*types.Pointer); ok {
+			if arr, ok := p.Elem().Underlying().(*types.Array); ok && arr.Len() >= 1 && arr.Len() <= 8 {
+				canon := emptyOf(seq.Sort)
+				all := true
+				for k := int64(0); k < arr.Len(); k++ {
+					e, ok := litElem(seq, fmt.Sprint(k))
+					if !ok {
+						all = false
+						break
+					}
+					canon = catOf(canon, singleOf(seq.Sort, e))
+				}
+				if all {
+					canon.GoT = x.Type()
+					st.assume(eq(canon, seq))
+					r = canon
+				}
+			}
+		}
 	}
 	if isArr && whole {
 		// array/slice literal: name every element so that quantified facts about the literal
